@@ -356,6 +356,16 @@ func (c *ctx) termOf(v Val) *T {
 				return app(name, "Int", v.ptr.ref)
 			}
 		}
+		if v.ptr.kind == pkElem && len(v.ptr.path) == 0 && v.ptr.idx != nil {
+			// pointer to a slice/array element: eptr_T(ref, index)
+			name := "eptr_" + sanitize(heapKey(v.ptr.base))
+			if c.eptrs == nil {
+				c.eptrs = map[string]types.Type{}
+			}
+			c.eptrs[name] = v.ptr.base
+			c.d.fun(name, []string{"Int", c.intSort()}, "Int")
+			return app(name, "Int", v.ptr.ref, v.ptr.idx)
+		}
 		panic(unsupported("interior or stack pointer escapes to memory"))
 	}
 	if v.fn != nil {
@@ -382,6 +392,11 @@ func (c *ctx) ptrOf(v Val) *Ptr {
 	if u := v.t.un(); len(u.args) == 1 {
 		if info, ok := c.iptrs[u.op]; ok {
 			return &Ptr{kind: pkHeap, ref: u.args[0], base: info.base, path: info.path}
+		}
+	}
+	if u := v.t.un(); len(u.args) == 2 {
+		if bt, ok := c.eptrs[u.op]; ok {
+			return &Ptr{kind: pkElem, ref: u.args[0], idx: u.args[1], base: bt}
 		}
 	}
 	return &Ptr{kind: pkHeap, ref: v.t, base: pt.Elem()}
